@@ -49,7 +49,13 @@ impl PieceSolver {
     }
 
     pub fn solve(&mut self, piece: OrchestrationPiece) { 
+        #[cfg(lbfs_torrent_bootstrap_verif)]
+        crate::verif_shim::trace::solve_begin(&piece);
+
         let result = self.solve_internal(&piece);
+
+        #[cfg(lbfs_torrent_bootstrap_verif)]
+        crate::verif_shim::trace::solve_end(&result);
 
         let mut state = self.state.lock().unwrap();
 
